@@ -126,6 +126,7 @@ struct refc {
 	struct comps c;
 	int authority_ok;   /* authority could be split by the 3.2 grammar */
 	int unix_form;      /* the unix: transformation applied */
+	const char *unix_rest; /* unix_form: text after the ':' that ends the socket path */
 };
 
 static const char *put(struct refc *r, int which, const char *p, size_t n)
@@ -155,7 +156,7 @@ static void ref_split(const char *s, unsigned flags, struct refc *r)
 			const char *e = strchr(h + 5, ':');
 			r->unix_form = 1;
 			put(r, C_UNIX, h + 5, (size_t)(e - (h + 5)));
-			p = e + 1;
+			p = r->unix_rest = e + 1;
 		} else {
 			const char *he, *rest;
 			if (*h == '[') {
@@ -189,6 +190,42 @@ static void ref_split(const char *s, unsigned flags, struct refc *r)
 	if (*p == '?') { q = p + 1 + strcspn(p + 1, "#"); put(r, C_QUERY, p + 1, (size_t)(q - p - 1)); p = q; }
 	/* (#(.*))? */
 	if (*p == '#') put(r, C_FRAG, p + 1, strlen(p + 1));
+}
+
+/* Signature of one specific parser defect (kept as a known finding): with
+ * EVHTTP_URI_UNIX_SOCKET and a socket path that contains '/', '?' or '#', the
+ * parser ends the authority at that character, so path/query/fragment are
+ * read from *inside the socket path* (up to the ':' that terminates it, which
+ * it overwrites with NUL) and the real rest of the URI is dropped.  True iff
+ * `got` carries exactly that: path/query/fragment = appendix-B split of the
+ * socket text from its first [/?#]. */
+static int split_equals(const char *t, const struct comps *got)
+{
+	const char *q;
+	char path[RMAX], query[RMAX], frag[RMAX];
+	const char *eq = NULL, *ef = NULL;
+	if (!t) t = "";
+	if (strlen(t) >= RMAX) return 0;
+	q = t + strcspn(t, "?#");
+	snprintf(path, sizeof path, "%.*s", (int)(q - t), t);
+	if (*q == '?') { const char *e = q + 1 + strcspn(q + 1, "#"); snprintf(query, sizeof query, "%.*s", (int)(e - q - 1), q + 1); eq = query; q = e; }
+	if (*q == '#') { snprintf(frag, sizeof frag, "%s", q + 1); ef = frag; }
+	return same_str(got->s[C_PATH], path) && same_str(got->s[C_QUERY], eq) && same_str(got->s[C_FRAG], ef);
+}
+static int rest_parsed_from_socket_path(const char *sock, const struct comps *got)
+{
+	const char *t;
+	if (!sock || !(t = strpbrk(sock, "/?#"))) return 0;
+	return split_equals(t, got);
+}
+/* Second face of the same defect: the socket path has no [/?#], so the authority
+ * ends at the first [/?#] *after* the socket's ':' and whatever stands between
+ * the two is silently ignored ("//unix:s:junk/p" parses like "//unix:s:/p"). */
+static int text_after_socket_ignored(const char *sock, const char *rest, const struct comps *got)
+{
+	if (!sock || !rest || strpbrk(sock, "/?#")) return 0;
+	if (!*rest || strchr("/?#", *rest)) return 0;   /* nothing stands in between */
+	return split_equals(strpbrk(rest, "/?#"), got);
 }
 
 /* ------------------------------------------------------------------ */
@@ -227,6 +264,11 @@ static int check_parsed(const char *s, unsigned fl)
 		mc_fail("C28/rfc-split/accepted-unsplittable-authority", "input %s flags=%#x accepted, but its authority is not [userinfo@]host[:port]; parsed %s", vis(s), fl, vis_comps(&c1));
 	else if ((m = diff_comps(&c1, &ref.c)) != 0) {
 		char key[96];
+		if (ref.unix_form && !(m & ~(BIT(C_PATH) | BIT(C_QUERY) | BIT(C_FRAG))) && rest_parsed_from_socket_path(ref.c.s[C_UNIX], &c1))
+			snprintf(key, sizeof key, "C28/rfc-split/unix-authority/rest-parsed-from-socket-path");
+		else if (ref.unix_form && !(m & ~(BIT(C_PATH) | BIT(C_QUERY) | BIT(C_FRAG))) && text_after_socket_ignored(ref.c.s[C_UNIX], ref.unix_rest, &c1))
+			snprintf(key, sizeof key, "C28/rfc-split/unix-authority/text-after-socket-ignored");
+		else
 		snprintf(key, sizeof key, "C28/rfc-split/%s%s", ref.unix_form ? "unix-authority/" : "", cname[first_bit(m)]);
 		mc_fail(key, "input %s flags=%#x: parsed %s but RFC 3986 components are %s", vis(s), fl, vis_comps(&c1), vis_comps(&ref.c));
 	}
@@ -385,6 +427,7 @@ static void item_set(uint64_t i)
 	int sc = (int)(x % N(S_SCHEME)); x /= N(S_SCHEME);
 	unsigned fl = FLAGSETS[x];
 	struct comps b, c2; unsigned m, accepted = 0;
+	memset(&c2, 0, sizeof c2);
 	struct evhttp_uri *u, *u2 = NULL;
 
 	/* A unix socket can only come out of a parse with EVHTTP_URI_UNIX_SOCKET, so
@@ -451,6 +494,8 @@ static void item_set(uint64_t i)
 			{ "userinfo-without-host", b.s[C_USERINFO] && !auth, BIT(C_USERINFO), 0 },
 			{ "port-dropped-with-unixsocket", b.s[C_UNIX] && b.port >= 0, BIT(C_PORT), 0 },
 			{ "host-dropped-with-unixsocket", b.s[C_UNIX] && b.s[C_HOST], BIT(C_HOST), 0 },
+			{ "unix-rest-parsed-from-socket-path", u2 && b.s[C_UNIX] && same_str(b.s[C_UNIX], c2.s[C_UNIX]) && rest_parsed_from_socket_path(b.s[C_UNIX], &c2),
+			  BIT(C_PATH) | BIT(C_QUERY) | BIT(C_FRAG), 0 },
 			{ "relative-path-with-unixsocket", b.s[C_UNIX] && path[0] && path[0] != '/', BIT(C_PATH), 1 },
 			{ "unixsocket-with-colon", b.s[C_UNIX] && strchr(b.s[C_UNIX], ':'), BIT(C_UNIX) | BIT(C_PATH) | BIT(C_QUERY) | BIT(C_FRAG), 1 },
 			{ "path-double-slash-without-authority", !auth && path[0] == '/' && path[1] == '/',
